@@ -14,7 +14,7 @@ ASSUMPTIONS = [
 ]
 BOUNDS = {
     "quick": "structures: single, unary, pair, pair+isolated, chain-3, triangle (scopes in lexical, reversed and mixed order), pair+unary, chain-3 with a unary constraint on the root, pair with variable cost, pair / chain-3 with a single-value domain, triangle / chain-3 whose variable names contain one another (v1, v10, v100); domain size 2; min and max; all start orders and FIFO interleavings",
-    "thorough": "quick + star-3, two disconnected pairs, ternary, ternary+binary, chain-3 with variable costs, pair with domain 3 (all schedules), chain-3 with one domain of size 3 (canonical schedule), str-valued domains",
+    "thorough": "quick + star-3, two disconnected pairs, ternary, ternary+binary, chain-3 with variable costs, pair with domain 3 (all schedules), chain-3 with one domain of size 3 (canonical schedule), str-valued domains; bug hunting only (cpu budget): complete graph on 4 variables (separators of width 3), canonical schedule",
 }
 OUTSIDE = "more than 4 variables, domains larger than 3, arity above 3, float-valued tables, infinite costs"
 CAP_S = {"quick": 900, "thorough": 5400}
@@ -40,6 +40,9 @@ def jobs(tier):
             # chain-3 with all domains of size 3 does not exhaust (> 2 million paths in 25 min): one variable of size 3
             out.append({"name": "chain3-dom322-%s" % mode, "spec": spec("chain3", mode, dom={"x": 3}), "start": "upfront",
                         "fixed": True})
+        # complete graph on 4 variables (separators of width 3): symbolic tables, canonical schedule, cpu budget
+        for mode in ("min", "max"):
+            out.append({"name": "k4-%s" % mode, "spec": spec("k4", mode), "start": "upfront", "fixed": True, "hunt_cpu_s": 1500})
         out.append({"name": "chain3-str-min", "spec": spec("chain3", "min", domain_kind="str"), "start": "upfront"})
     return out
 
